@@ -101,6 +101,52 @@ pub mod by_ref {
 pub mod by_rc {
     use super::*;
 
+    /// re-split: by-reference branches first (any admissible 3-step schedule, so either branch may be
+    /// left lagging), dropped, then reference-counted branches from the same fork continue the streams
+    #[kani::proof]
+    #[kani::unwind(10)]
+    pub fn resplit_by_ref_then_by_rc_cap2() {
+        const CAP: usize = 2;
+        let src: Probe<i32, 8> = Probe::new([0, 1, 2, 3, 4, 5, 6, 7], 8);
+        let mut fork = src.fork(Bounded::from([0i32; CAP]));
+        let (mut na, mut nb) = (0i32, 0i32);
+        {
+            let (mut a, mut b) = fork.by_ref();
+            for _ in 0..3 {
+                let pick_a: bool = kani::any();
+                if pick_a {
+                    kani::assume(na - nb < CAP as i32);
+                    assert!(a.next() == na);
+                    na += 1;
+                } else {
+                    kani::assume(nb - na < CAP as i32);
+                    assert!(b.next() == nb);
+                    nb += 1;
+                }
+            }
+        }
+        let (mut a, mut b) = fork.by_rc();
+        assert!(a.pending_frames() == if nb > na { (nb - na) as usize } else { 0 }, "lag survives the re-split");
+        assert!(b.pending_frames() == if na > nb { (na - nb) as usize } else { 0 });
+        for _ in 0..3 {
+            let pick_a: bool = kani::any();
+            if pick_a {
+                kani::assume(na - nb < CAP as i32);
+                assert!(a.next() == na, "branch A continues its own stream after the re-split");
+                na += 1;
+            } else {
+                kani::assume(nb - na < CAP as i32);
+                assert!(b.next() == nb, "branch B continues its own stream after the re-split");
+                nb += 1;
+            }
+            assert!(a.pending_frames() == if nb > na { (nb - na) as usize } else { 0 });
+            assert!(b.pending_frames() == if na > nb { (na - nb) as usize } else { 0 });
+        }
+        kani::cover!(true, "end");
+        core::mem::forget(a);
+        core::mem::forget(b);
+    }
+
     #[kani::proof]
     #[kani::unwind(10)]
     pub fn cap2() {
